@@ -113,7 +113,7 @@ Section Parse.
   Variable selectors_ok : list (ustring * pval) -> pval -> result bool.
   Hypothesis Hpad : vr_year_pad vr = true.
   Variable ids : list ustring.
-  Hypothesis Hclosed : closed_ok vr w ids = true.
+  Hypothesis Hclosed : closed_okw vr w ids = true.
   Hypothesis Hreg : registry_ok w = true.
   (* the parse entry points among them *)
   Variable pids : list ustring.
@@ -153,6 +153,68 @@ Section Parse.
       unfold amem. cbn [reg_of] in H.
       clear - H. induction (robservables (wreg21 w)) as [| [k' v'] r IH]; cbn [assoc alookup] in *; try discriminate.
       destruct (ustr_eqb t k'); auto.
+  Qed.
+
+  (* a successful parse of a covered class is a constructor run of that class, and conversely *)
+  Lemma parse_inv : forall f allow interop d ci Sv dfl hc,
+    mem_ustr ci pids = true ->
+    RUN (S f) (RParse allow interop None d) = Ok (PObject ci Sv dfl hc) ->
+    exists t vv,
+      alookup type_key d = Some (JStr t) /\ detect_version vr w (S f) d = Ok (Some vv) /\
+      (match class_for w t vv 0%N with Some c0 => Some c0 | None => class_for w t vv 1%N end) = Some ci /\
+      RUN f (RConstruct ci allow interop d None) = Ok (PObject ci Sv dfl hc).
+  Proof.
+    intros f allow interop d ci Sv dfl hc Hmp H.
+    cbn [run] in H. change (u "type") with type_key in H.
+    destruct (alookup type_key d) as [ty |] eqn:Ety; try discriminate.
+    unfold bind in H.
+    destruct (detect_version vr w (S f) d) as [ovv | |] eqn:Edet; try discriminate.
+    set (found := match ty, ovv with
+                  | JStr t, Some vv => match class_for w t vv 0%N with Some c0 => Some c0 | None => class_for w t vv 1%N end
+                  | _, _ => None
+                  end) in *.
+    assert (Hfound : exists k, found = Some k).
+    { destruct found as [k |] eqn:Ef; [eauto |]. exfalso.
+      destruct ty; try discriminate;
+        (destruct allow; [inv H |
+         match type of H with match ?g with _ => _ end = _ => destruct g as [x |] eqn:Ex; try discriminate end;
+         try (destruct x; try discriminate; try (destruct (vr_d2s_ext_guard vr); discriminate);
+              apply d2s_ext_scan_result in H; discriminate)]). }
+    destruct Hfound as [k Efound].
+    assert (Hty : exists t vv, ty = JStr t /\ ovv = Some vv /\
+              (match class_for w t vv 0%N with Some c0 => Some c0 | None => class_for w t vv 1%N end) = Some k).
+    { unfold found in Efound. destruct ty; try discriminate. destruct ovv as [vv |]; try discriminate. eauto. }
+    destruct Hty as [t [vv [Ety2 [Eovv Ecf]]]]. subst ty ovv.
+    cbv zeta in H. fold found in H. rewrite Efound in H.
+    destruct (RUN f (RConstruct k allow interop d None)) as [o0 | |] eqn:Er; try discriminate.
+    destruct (vr_parse_guard_custom vr && negb allow && pval_has_custom o0); try discriminate. inv H.
+    pose proof (run_construct_cid _ _ _ _ _ _ _ _ _ _ _ _ _ _ _ Er) as Ek. subst k.
+    exists t, vv. auto.
+  Qed.
+
+  Lemma parse_intro : forall f allow interop d t vv k o,
+    alookup type_key d = Some (JStr t) -> detect_version vr w (S f) d = Ok (Some vv) ->
+    (match class_for w t vv 0%N with Some c0 => Some c0 | None => class_for w t vv 1%N end) = Some k ->
+    RUN f (RConstruct k allow interop d None) = Ok o ->
+    vr_parse_guard_custom vr && negb allow && pval_has_custom o = false ->
+    RUN (S f) (RParse allow interop None d) = Ok o.
+  Proof.
+    intros f allow interop d t vv k o Ety Edet Ecf Er Hg.
+    remember f as f0. cbn [run]. change (u "type") with type_key. rewrite Ety. unfold bind. rewrite Edet.
+    cbv zeta. rewrite Ecf. subst f0. rewrite Er. rewrite Hg. reflexivity.
+  Qed.
+
+  Lemma parse_inv2 : forall f allow interop d t vv k o,
+    alookup type_key d = Some (JStr t) -> detect_version vr w (S f) d = Ok (Some vv) ->
+    (match class_for w t vv 0%N with Some c0 => Some c0 | None => class_for w t vv 1%N end) = Some k ->
+    RUN (S f) (RParse allow interop None d) = Ok o ->
+    RUN f (RConstruct k allow interop d None) = Ok o.
+  Proof.
+    intros f allow interop d t vv k o Ety Edet Ecf H.
+    remember f as f0. cbn [run] in H. change (u "type") with type_key in H. rewrite Ety in H. unfold bind in H. rewrite Edet in H.
+    cbv zeta in H. rewrite Ecf in H. subst f0.
+    destruct (RUN f (RConstruct k allow interop d None)) as [o0 | |]; try discriminate.
+    destruct (vr_parse_guard_custom vr && negb allow && pval_has_custom o0); try discriminate. exact H.
   Qed.
 
   (* the round trip, and what else is preserved: plainness, absence of reserved names, the type, the presence of an id *)
@@ -206,24 +268,56 @@ Section Parse.
     assert (Hidk : id_given w k d = true).
     { unfold id_given. rewrite Efc. destruct (is_sco21 c) eqn:Es; cbn [negb orb]; auto.
       destruct Hid as [Hi | Hi]; [exact Hi |]. rewrite (Hi t eq_refl) in Hsco. specialize (Hsco eq_refl). discriminate. }
-    destruct (run_construct_cg vr ev w pattern_ok selectors_ok ids Hclosed f' k allow interop d None _ Hkm Hp Hidk Er)
-      as [c' [Efc' [Hcok Hcg]]].
+    destruct (run_construct_eff vr ev w pattern_ok selectors_ok Hpad ids Hclosed f' k allow interop d None _ Hkm Hp Hidk Er)
+      as [c' [Efc' [Hcok Heff]]].
+    unfold effective in Heff.
+    destruct Heff as [cE [rcE [PE [dE [Hrc [Hnd [Hslots [Hcg [HpE [Hagree [EcidE [EdflE HslotE]]]]]]]]]]]].
     rewrite Efc in Efc'. inv Efc'.
-    pose proof (run_construct_idem vr ev w pattern_ok selectors_ok Hpad ids (closed_ok_weaken vr w ids Hclosed) (S f') k allow interop d None _ Hkm Hp Hidk Er)
+    pose proof (run_construct_idem vr ev w pattern_ok selectors_ok Hpad ids Hclosed (S f') k allow interop d None _ Hkm Hp Hidk Er)
       as [_ [Hresw [Hre Hplw]]].
-    pose proof (run_construct_idem vr ev w pattern_ok selectors_ok Hpad ids (closed_ok_weaken vr w ids Hclosed) f') as Hclaim.
-    pose proof (claim_rc vr ev w pattern_ok selectors_ok ids f' Hclaim) as Hrc.
-    unfold class_ok in Hcok.
-    apply andb_true_iff in Hcok. destruct Hcok as [Hcok _]. apply andb_true_iff in Hcok. destruct Hcok as [Hcok _].
-    apply andb_true_iff in Hcok. destruct Hcok as [Hnd Hslots]. apply nodupb_NoDup in Hnd.
-    set (rc := fun k0 a i kw0 => RUN f' (RConstruct k0 a i kw0 None)) in *.
     set (rp := fun a i d0 => RUN f' (RParse a i None d0)) in *.
     set (ro := fun vv0 refs a d0 => RUN f' (RParseObs (Some vv0) refs a false d0)) in *.
     set (vrf := match cfamily c' with FSco => Some [] | _ => None end) in *.
     (* shape of the result *)
-    destruct (cg_idem vr ev w pattern_ok selectors_ok rc rp ro (nestable w ids) Hpad Hrc c' allow interop vrf Hnd Hslots (S f') d _ Hp Hcg)
-      as [S' [hc' [Eobj [_ [_ Hgiven]]]]].
+    destruct (cg_idem vr ev w pattern_ok selectors_ok rcE rp ro PE Hpad Hrc cE allow interop vrf Hnd Hslots (S f') dE _ HpE Hcg)
+      as [S' [hc' [Eobj [_ [_ Hgiven']]]]].
+    rewrite EcidE, EdflE in Eobj.
     inversion Eobj; subst S' dfl hc'. clear Eobj.
+    (* the three names the parse looks at are untouched by the class __init__ *)
+    assert (Kt : type_key <> PVERSION /\ type_key <> DEF /\ type_key <> CREATED) by (repeat split; intros E; vm_compute in E; discriminate).
+    assert (Ks : sv_key <> PVERSION /\ sv_key <> DEF /\ sv_key <> CREATED) by (repeat split; intros E; vm_compute in E; discriminate).
+    assert (Ki : id_key <> PVERSION /\ id_key <> DEF /\ id_key <> CREATED) by (repeat split; intros E; vm_compute in E; discriminate).
+    assert (Hgiven : amem id_key d = true -> amem id_key Sv = true).
+    { intros Hd. apply Hgiven'. unfold amem in *. rewrite (Hagree id_key (proj1 Ki)). exact Hd. }
+    assert (GV : forall n j, (n <> PVERSION /\ n <> DEF /\ n <> CREATED) -> alookup n d = Some j ->
+                 match slot_of c' n with
+                 | None => alookup n Sv = Some (PJ j)
+                 | Some sl => exists v h, alookup n Sv = Some v /\ clean_kind vr w rcE rp ro (skind sl) allow interop j = Ok (v, h)
+                 end).
+    { intros n j [K1 [K2 K3]] Ej. rewrite <- (HslotE n K2 K3).
+      apply (cg_given_value vr ev w pattern_ok selectors_ok rcE rp ro cE allow interop vrf Hnd (S f') dE Sv (defaulted_names cE Sv) hc n j HpE).
+      - rewrite EcidE, EdflE. exact Hcg.
+      - rewrite (Hagree n K1). exact Ej. }
+    assert (AB : forall n, (n <> PVERSION /\ n <> DEF /\ n <> CREATED) -> alookup n d = None ->
+                 (forall sl, slot_of c' n = Some sl -> sdef sl = DNone) -> amem n Sv = false).
+    { intros n [K1 [K2 K3]] Ej Hd.
+      apply (cg_absent vr ev w pattern_ok selectors_ok rcE rp ro cE allow interop vrf Hnd (S f') dE Sv (defaulted_names cE Sv) hc n HpE).
+      - rewrite EcidE, EdflE. exact Hcg.
+      - rewrite (Hagree n K1). exact Ej.
+      - intros sl Hsl. apply Hd. rewrite <- (HslotE n K2 K3). exact Hsl. }
+    assert (DP : forall n sl, (n <> PVERSION /\ n <> DEF /\ n <> CREATED) -> alookup n d = None -> slot_of c' n = Some sl -> sdef sl <> DNone ->
+                 amem n Sv = true /\
+                 (forall fv al, skind sl = KFixed fv al -> sdef sl = DFixed -> alookup n Sv = Some (PJ (JStr fv)))).
+    { intros n sl [K1 [K2 K3]] Ej Hsl Hdn.
+      apply (cg_default_present vr ev w pattern_ok selectors_ok rcE rp ro cE allow interop vrf Hnd (S f') dE Sv (defaulted_names cE Sv) hc n sl HpE).
+      - rewrite EcidE, EdflE. exact Hcg.
+      - rewrite (Hagree n K1). exact Ej.
+      - rewrite (HslotE n K2 K3). exact Hsl.
+      - exact Hdn. }
+    assert (MD : forall n, mem_ustr n (defaulted_names c' Sv) = true ->
+                 exists sl b, (n <> DEF -> n <> CREATED -> slot_of c' n = Some sl) /\ sdef sl = DConst (JBool b) /\ alookup n Sv = Some (PJ (JBool b))).
+    { intros n Hn. rewrite <- EdflE in Hn. destruct (mem_defaulted vr PE cE Hnd Hslots _ _ Hn) as [sl [b [E1 [E2 E3]]]].
+      exists sl, b. split; [| auto]. intros K2 K3. rewrite <- (HslotE n K2 K3). exact E1. }
     rewrite forallb_forall in Hpc. pose proof (Hpc k (proj1 (mem_ustr_In k pids) Hkp)) as Hpk. rewrite Efc in Hpk.
     unfold parse_class_ok in Hpk.
     apply andb_true_iff in Hpk. destruct Hpk as [Hpk Hver]. apply andb_true_iff in Hpk. destruct Hpk as [Hpk Hidslot].
@@ -234,14 +328,13 @@ Section Parse.
     (* "type" is written as given *)
     assert (Htype' : alookup type_key (written c' Sv) = Some (JStr t)).
     { rewrite alookup_written.
-      pose proof (cg_given_value vr ev w pattern_ok selectors_ok rc rp ro c' allow interop vrf Hnd
-                    (S f') d Sv _ hc type_key (JStr t) Hp Hcg Ety) as Hv.
+      pose proof (GV type_key (JStr t) Kt Ety) as Hv.
       assert (Es : alookup type_key Sv = Some (PJ (JStr t))).
       { destruct (slot_of c' type_key) as [sl |] eqn:Esl; [| exact Hv].
         destruct Hv as [v [h [E1 E2]]]. destruct (skind sl); try discriminate. cbn [clean_kind] in E2.
         destruct (jvalue_eqb (JStr t) (JStr v0)); try discriminate. inv E2. exact E1. }
       rewrite Es. destruct (mem_ustr type_key (defaulted_names c' Sv)) eqn:Ed; auto.
-      destruct (mem_defaulted vr (nestable w ids) c' Hnd Hslots _ _ Ed) as [sl [b [_ [_ E3]]]]. rewrite Es in E3. discriminate. }
+      destruct (MD _ Ed) as [sl [b [_ [_ E3]]]]. rewrite Es in E3. discriminate. }
     (* the version is detected again *)
     assert (Hdet' : detect_version vr w (S (S f')) (written c' Sv) = Ok (Some (cver c'))).
     { rewrite (detect_nonbundle vr w (S f') (written c' Sv) t Htype' Hnb).
@@ -249,33 +342,30 @@ Section Parse.
       assert (Hnotdfl : forall n v, alookup n Sv = Some v -> (forall b, v <> PJ (JBool b)) -> alookup n (written c' Sv) = Some (encode false v)).
       { intros n v Ev Hnb0. rewrite alookup_written, Ev.
         destruct (mem_ustr n (defaulted_names c' Sv)) eqn:Ed; auto.
-        destruct (mem_defaulted vr (nestable w ids) c' Hnd Hslots _ _ Ed) as [sl [b [_ [_ E3]]]]. rewrite Ev in E3. inv E3.
+        destruct (MD _ Ed) as [sl [b [_ [_ E3]]]]. rewrite Ev in E3. inv E3.
         exfalso. eapply Hnb0. reflexivity. }
       destruct (cver c') eqn:Ecv.
       - (* 2.0 *)
         apply andb_true_iff in Hver. destruct Hver as [Hsvslot Hidd].
         destruct (slot_of c' sv_key) eqn:Esv; try discriminate.
         destruct (alookup sv_key d) as [sv0 |] eqn:Esvd.
-        + pose proof (cg_given_value vr ev w pattern_ok selectors_ok rc rp ro c' allow interop vrf Hnd
-                        (S f') d Sv _ hc sv_key sv0 Hp Hcg Esvd) as Hv. rewrite Esv in Hv.
+        + pose proof (GV sv_key sv0 Ks Esvd) as Hv. rewrite Esv in Hv.
           rewrite alookup_written, Hv.
           destruct (mem_ustr sv_key (defaulted_names c' Sv)) eqn:Ed.
-          * apply (defaulted_are_slots c') in Ed. exfalso.
-            apply mem_ustr_In in Ed. apply in_map_iff in Ed. destruct Ed as [sl [En Hsl]].
-            rewrite <- En in Esv. rewrite (slot_of_unique c' Hnd sl Hsl) in Esv. discriminate.
+          * exfalso. destruct (MD _ Ed) as [sl [b [E1 _]]]. specialize (E1 (proj1 (proj2 Ks)) (proj2 (proj2 Ks))).
+            rewrite E1 in Esv. discriminate.
           * cbn [encode]. exact Edet.
         + assert (Habs : amem sv_key Sv = false).
-          { eapply (cg_absent vr ev w pattern_ok selectors_ok rc rp ro c' allow interop vrf Hnd);
-              [exact Hp | exact Hcg | exact Esvd |]. intros sl Hsl. rewrite Esv in Hsl. discriminate. }
+          { apply (AB sv_key Ks Esvd). intros sl Hsl. rewrite Esv in Hsl. discriminate. }
           assert (Ew : alookup sv_key (written c' Sv) = None).
           { rewrite alookup_written. unfold amem in Habs. destruct (alookup sv_key Sv); [discriminate | reflexivity]. }
           rewrite Ew.
           destruct (amem id_key d) eqn:Eidd; cbn [negb] in Edet |- *.
           * assert (Hidw : amem id_key (written c' Sv) = true).
-            { pose proof (Hgiven _ Eidd) as Hs. unfold amem in *. rewrite alookup_written.
+            { pose proof (Hgiven eq_refl) as Hs. unfold amem in *. rewrite alookup_written.
               destruct (alookup id_key Sv) as [v0 |] eqn:Ev; try discriminate.
               destruct (mem_ustr id_key (defaulted_names c' Sv)) eqn:Ed; auto.
-              destruct (mem_defaulted vr (nestable w ids) c' Hnd Hslots _ _ Ed) as [sl [b [E1 [E2 _]]]].
+              destruct (MD _ Ed) as [sl [b [E1 [E2 _]]]]. specialize (E1 (proj1 (proj2 Ki)) (proj2 (proj2 Ki))).
               rewrite E1 in Hidslot. rewrite E2 in Hidslot. discriminate. }
             rewrite Hidw. cbn [negb]. exact Edet.
           * (* no id given: either still none, or one was filled in and the type is not a 2.1 observable *)
@@ -286,16 +376,14 @@ Section Parse.
             destruct (slot_of c' id_key) as [sl |] eqn:Eidsl.
             -- destruct (sdef sl) eqn:Edf.
                ++ exfalso. assert (amem id_key Sv = false).
-                  { eapply (cg_absent vr ev w pattern_ok selectors_ok rc rp ro c' allow interop vrf Hnd);
-                      [exact Hp | exact Hcg | exact Hidn |]. intros sl0 Hsl0. rewrite Eidsl in Hsl0. inv Hsl0. exact Edf. }
+                  { apply (AB id_key Ki Hidn). intros sl0 Hsl0. rewrite Eidsl in Hsl0. inv Hsl0. exact Edf. }
                   congruence.
                ++ rewrite Ectype in Hidd. apply negb_true_iff in Hidd. rewrite Hidd. reflexivity.
                ++ rewrite Ectype in Hidd. apply negb_true_iff in Hidd. rewrite Hidd. reflexivity.
                ++ rewrite Ectype in Hidd. apply negb_true_iff in Hidd. rewrite Hidd. reflexivity.
                ++ rewrite Ectype in Hidd. apply negb_true_iff in Hidd. rewrite Hidd. reflexivity.
             -- exfalso. assert (amem id_key Sv = false).
-               { eapply (cg_absent vr ev w pattern_ok selectors_ok rc rp ro c' allow interop vrf Hnd);
-                   [exact Hp | exact Hcg | exact Hidn |]. intros sl0 Hsl0. rewrite Eidsl in Hsl0. discriminate. }
+               { apply (AB id_key Ki Hidn). intros sl0 Hsl0. rewrite Eidsl in Hsl0. discriminate. }
                congruence.
       - (* 2.1: spec_version is a fixed slot *)
         destruct (slot_of c' sv_key) as [sl |] eqn:Esv; try discriminate.
@@ -303,13 +391,11 @@ Section Parse.
         apply ustr_eqb_eq in Hver. subst v.
         assert (Es : alookup sv_key Sv = Some (PJ (JStr (u "2.1")))).
         { destruct (alookup sv_key d) as [sv0 |] eqn:Esvd.
-          - pose proof (cg_given_value vr ev w pattern_ok selectors_ok rc rp ro c' allow interop vrf Hnd
-                          (S f') d Sv _ hc sv_key sv0 Hp Hcg Esvd) as Hv. rewrite Esv in Hv.
+          - pose proof (GV sv_key sv0 Ks Esvd) as Hv. rewrite Esv in Hv.
             destruct Hv as [v [h [E1 E2]]]. rewrite Eknd in E2. cbn [clean_kind] in E2.
             destruct (jvalue_eqb sv0 (JStr (u "2.1"))) eqn:Ej; try discriminate. apply jvalue_eqb_eq in Ej. subst sv0. inv E2. exact E1.
           - assert (Hdn : sdef sl <> DNone) by (rewrite Edf; discriminate).
-            destruct (cg_default_present vr ev w pattern_ok selectors_ok rc rp ro c' allow interop vrf Hnd
-                        (S f') d Sv _ hc sv_key sl Hp Hcg Esvd Esv Hdn) as [_ Hfx].
+            destruct (DP sv_key sl Ks Esvd Esv Hdn) as [_ Hfx].
             exact (Hfx _ _ Eknd Edf). }
         rewrite (Hnotdfl sv_key _ Es) by (intros b Eb; discriminate). cbn [encode]. reflexivity. }
     split.
@@ -320,10 +406,10 @@ Section Parse.
       cbv zeta. rewrite Ecf. rewrite Hre. cbn [pval_has_custom].
       destruct (vr_parse_guard_custom vr && negb allow && hc); [discriminate | reflexivity].
     - split; [exact Hplw |]. split; [exact Hresw |]. split; [exists t; auto |]. split.
-      + intros Eidd. pose proof (Hgiven _ Eidd) as Hs. unfold amem in *. rewrite alookup_written.
+      + intros Eidd. pose proof (Hgiven Eidd) as Hs. unfold amem in *. rewrite alookup_written.
         destruct (alookup id_key Sv) as [v0 |] eqn:Ev; try discriminate.
         destruct (mem_ustr id_key (defaulted_names c' Sv)) eqn:Ed; auto.
-        destruct (mem_defaulted vr (nestable w ids) c' Hnd Hslots _ _ Ed) as [sl [b [E1 [E2 _]]]].
+        destruct (MD _ Ed) as [sl [b [E1 [E2 _]]]]. specialize (E1 (proj1 (proj2 Ki)) (proj2 (proj2 Ki))).
         rewrite E1 in Hidslot. rewrite E2 in Hidslot. discriminate.
       + intros n Hn. unfold amem in *. rewrite alookup_written in Hn. destruct (alookup n Sv); [reflexivity | discriminate].
   Qed.
